@@ -20,6 +20,7 @@ pub struct Totals {
     pub executions: u64,
     pub outcomes: u64,
     pub capped: u64,
+    pub capped_models: Vec<Value>,
     pub per_harness: std::collections::BTreeMap<String, (u64, u64, u64)>,
 }
 
@@ -92,6 +93,7 @@ pub fn run_jobs(rep: &mut Report, jobs: Vec<Job>) -> Totals {
             totals.outcomes += oc;
             if st["capped"].as_bool().unwrap_or(false) {
                 totals.capped += 1;
+                totals.capped_models.push(json!({"harness": job.harness, "config": job.cfg, "executions_before_cap": ex}));
             }
             let e = totals.per_harness.entry(job.harness.to_string()).or_default();
             e.0 += 1;
@@ -132,6 +134,7 @@ pub fn fill_report(rep: &mut Report, totals: &Totals, what: &str) {
     rep.set("executions", totals.executions);
     rep.set("distinct_outcomes_summed_over_models", totals.outcomes);
     rep.set("models_stopped_by_wall_cap", totals.capped);
+    rep.set("models_stopped_by_wall_cap_list", totals.capped_models.clone());
     rep.set("exhaustive", totals.capped == 0);
     rep.set(
         "per_harness",
